@@ -456,6 +456,8 @@ def run_tool(ctx, fn, cwd=None, argv=None, drain=True, label=None):
         label = ctx.clean(label)
         ctx.ev("op", ctx.op_seq, label)
         ctx.describe["operations"].append(label)
+    if cwd is None:
+        cwd = getattr(ctx, "default_cwd", None)
     env = tool_env(ctx, cwd=cwd, argv=argv)
     out = Outcome(True)
     with env:
